@@ -32,7 +32,7 @@ CLAIMS = {
               "field, compared through the argument values a resolver receives from the original and the rebuilt schema. "
               "the rebuilt schema is valid, prints identically, shows no differences either way and keeps the order.",
               "DESIGN.md section 7, C17"),
-    "C12": _c("Bounded symbolic model checking of the real validate(): 18 documents (valid, near-valid, ill-typed) x every pair of the "
+    "C12": _c("Bounded symbolic model checking of the real validate(): 20 documents (valid, near-valid, ill-typed) x every pair of the "
               "specified rules in both orders, all rules vs the union of the singletons, every all-but-one subset, every rotation "
               "of the rule list, repetition and non-mutation of document and schema, four layout rewrites (reprint, strip, added "
               "ignored material, added descriptions), max_errors 0..11, and history independence (interleaved validations of other "
